@@ -471,6 +471,8 @@ def random_spec(rng, tier='quick'):
         else:
             fn['link'] = rng.choice(EXTRA_LINKS) if rng.random() < 0.06 else rng.choice(LINKS)
             fn['form'] = rng.choice(FORMS)
+            if rng.random() < 0.12:
+                fn['translate'] = random_translate(rng)
         fns.append(fn)
     spec = {'fns': fns, 'x': rng.choice([1, 2, 3, 4]), 'recursive': rng.random() >= 0.1}
     if rng.random() < 0.3:
@@ -486,6 +488,15 @@ FILE_NAMES = ['api.py', 'conversion.py', 'converter.py', 'error_utils.py', 'orig
               '__autograph_generated_fileab12cd34.py', 'x__autograph_generated_file.py', 'my module.py', 'dir with space/mod one.py',
               'm\u00f6dule_\u00fc.py', '\u043c\u043e\u0434\u0443\u043b\u044c.py', 'transformer.py', 'loader.py', 'templates.py',
               'ag_logging.py', 'variables.py', '__init__.py', 'pkg/__init__.py']
+
+
+# raise statements a translating link may use (plain `raise T(...)` statements only)
+TRANSLATE_KINDS = sorted(k for k, v in RAISE_KINDS.items() if v.startswith('raise ') and ' from ' not in v and '(' in v)
+TRANSLATE_MODES = ['plain', 'plain', 'from-none', 'from-other', 'finally']
+
+
+def random_translate(rng, catch=None):
+    return {'mode': rng.choice(TRANSLATE_MODES), 'kind': rng.choice(TRANSLATE_KINDS), 'catch': catch or 'Exception'}
 
 
 def random_files(rng, depth):
@@ -585,6 +596,19 @@ def build(spec, tag=''):
             else:
                 E = _call_expr(link, callee)
             site = _site(rng, ids, fn['form'], E, True)
+            tr = fn.get('translate')
+            if tr:
+                # the exception-translation pattern: this link CATCHES the failure of the chain below it and raises a
+                # different exception (no `as`: the pinned tree cannot convert `except X as e`)
+                stmt = RAISE_KINDS[tr['kind']]
+                if tr['mode'] == 'from-none':
+                    stmt += ' from None'
+                elif tr['mode'] == 'from-other':
+                    stmt += " from LookupError('another cause %d' % x)"
+                if tr['mode'] == 'finally':
+                    site = ['try:'] + _indent(site) + ['finally:', '    ' + stmt]
+                else:
+                    site = ['try:'] + _indent(site) + ['except %s:' % tr.get('catch', 'Exception'), '    ' + stmt]
         lines = setup + site
         for ctx in reversed(fn['contexts']):
             lines = _wrap(rng, ids, ctx, lines, fn['fillers'])
@@ -634,7 +658,9 @@ def build(spec, tag=''):
 def describe(spec):
     parts = []
     for fn in spec['fns']:
-        parts.append('%s/%s/%s' % (fn.get('link', fn.get('kind')), fn['form'], '+'.join(fn['contexts']) or '-'))
+        tr = fn.get('translate')
+        parts.append('%s/%s/%s%s' % (fn.get('link', fn.get('kind')), fn['form'], '+'.join(fn['contexts']) or '-',
+                                     (' {catches %s, %s %s}' % (tr.get('catch', 'Exception'), tr['mode'], tr['kind'])) if tr else ''))
     fl = spec.get('files')
     ftxt = '' if not fl else '[files %s%s] ' % (fl['entry'], (' | %s @%s' % (fl['helper'], fl.get('split'))) if fl.get('helper') else '')
     return ftxt + ('' if spec.get('recursive', True) else 'nonrecursive: ') + ' -> '.join(parts)
